@@ -15,11 +15,23 @@ from concurrent.futures import ThreadPoolExecutor
 
 VERIF = os.path.dirname(os.path.dirname(os.path.abspath(__file__)))
 REPO = os.environ.get("VERIF_REPO", "/repo")
-COQ = os.path.join(VERIF, "coq")
+REPO = os.path.abspath(REPO)
+ALT = REPO != "/repo"     # checking a scratch worktree (mutation testing): isolate all outputs
 WORK = os.path.join(VERIF, ".work")
+if ALT:
+    WORK = os.path.join(WORK, "alt-" + hashlib.sha256(REPO.encode()).hexdigest()[:10])
+COQ = os.path.join(WORK, "coq") if ALT else os.path.join(VERIF, "coq")
 HARNESS = os.path.join(VERIF, "harness")
 KNOWN = os.path.join(VERIF, "known-findings.txt")
-REPLAYS = os.path.join(VERIF, "replays")
+REPLAYS = os.path.join(WORK, "replays") if ALT else os.path.join(VERIF, "replays")
+EVIDENCE = os.path.join(WORK, "evidence") if ALT else os.path.join(VERIF, "evidence")
+
+
+def prepare_alt():
+    """a scratch worktree gets its own copy of the Coq tree (kernels are re-translated from it)"""
+    if ALT:
+        os.makedirs(WORK, exist_ok=True)
+        subprocess.run(["rsync", "-a", "--delete", os.path.join(VERIF, "coq") + "/", COQ + "/"], check=True)
 
 GOENV = dict(os.environ, GOFLAGS="-mod=mod", GOPROXY="off", GOSUMDB="off", GOTOOLCHAIN="local",
              CGO_ENABLED=os.environ.get("CGO_ENABLED", "1"), VERIF_REPO=REPO)
@@ -198,13 +210,18 @@ def overlay_json(cfg, work):
 def build_harness(cfg, work, log):
     name = cfg["harness"]
     binp = os.path.join(work, "hx-" + name)
-    gosum = os.path.join(HARNESS, "go.sum")
+    # per-run module file: `replace github.com/icon-project/goloop => <REPO>`, go.sum from REPO
+    modf = os.path.join(work, "go.mod")
+    with open(os.path.join(HARNESS, "go.mod")) as f:
+        mod = f.read().replace("=> /repo", "=> " + REPO)
+    with open(modf, "w") as f:
+        f.write(mod)
     try:
-        shutil.copyfile(os.path.join(REPO, "go.sum"), gosum)
+        shutil.copyfile(os.path.join(REPO, "go.sum"), os.path.join(work, "go.sum"))
     except OSError:
         pass
     ov = overlay_json(cfg, work)
-    cmd = ["go", "build", "-tags", "verif", "-overlay", ov, "-o", binp, "./cmd/" + name]
+    cmd = ["go", "build", "-modfile", modf, "-tags", "verif", "-overlay", ov, "-o", binp, "./cmd/" + name]
     rc, out = sh(cmd, cwd=HARNESS, env=GOENV, timeout=1500)
     log.append("harness build rc=%d\n%s" % (rc, out[-4000:]))
     return (binp if rc == 0 else None), out
